@@ -322,7 +322,9 @@ func (x *Exec) modelCall(st *State, fr *Frame, key string, cc *ssa.CallCommon, a
 		x.abstr["fields of strings.Split unconstrained (only their number is modelled)"] = true
 		base := x.newRef(st)
 		ln := fmt.Sprintf("(+ (nsep %s) 1)", args[0].Term)
-		return Val{T: rt, Term: fmt.Sprintf("(mkSlice %s %s %s)", base, ln, ln)}, true
+		sv := Val{T: rt, Term: fmt.Sprintf("(mkSlice %s %s %s)", base, ln, ln)}
+		st.assume(x.typeInv(rt, sv.Term, 1)) // a slice value: 0 <= len <= cap <= MaxInt
+		return sv, true
 	case "strings.SplitN":
 		// exact for a constant non-empty separator and n == 3
 		sc, ok1 := cc.Args[1].(*ssa.Const)
